@@ -134,7 +134,8 @@ TEXT = {
              "source implements since the repair of the two defects this check found (resurrection after a withdrawal, a withdrawal "
              "relayed again and again; their witness theorems remain as theorems about the variant without tombstones). Tie: "
              "withdrawn_stays_withdrawn and owner_race_no_resurrection (an advertisement round of the owner that overlaps the closing of "
-             "the listener cannot resurrect the service anywhere). Tie: "
+             "the listener cannot resurrect the service anywhere), close_serialised_with_rounds (Close unregisters and stamps under the "
+             "listener lock: a round either does not see the socket or is older than the withdrawal). Tie: "
              "regenerated facts (withdrawal test, keep test, record/forget, relay, where an advertisement is stamped) + an owner-side op "
              "(the listener closed between collection and send of a round) + differential runs of handleServiceAdvertisement "
              "on shuffled/duplicated histories with logical times, the former failing histories first (corpus).",
